@@ -100,7 +100,7 @@ pub open spec fn gen_post(pre: Compiler, post: Compiler, ok: bool) -> bool {
     &&& (forall|i: int| 0 <= i < pre.constants@.len() ==> post.constants@[i] == pre.constants@[i])
     // GHOST: the static height every enclosing loop expects at its exit / at its start label (one entry per loop context)
     &&& post.loop_h@ == pre.loop_h@
-    &&& (ok ==> sym_depth(post.symbols) == sym_depth(pre.symbols) && sym_contexts(post.symbols) == sym_contexts(pre.symbols) && sym_outer(post.symbols) == sym_outer(pre.symbols))
+    &&& (ok ==> sym_depth(post.symbols) == sym_depth(pre.symbols) && sym_contexts(post.symbols) == sym_contexts(pre.symbols) && sym_outer(post.symbols) == sym_outer(pre.symbols) && sym_outer_sizes(post.symbols) == sym_outer_sizes(pre.symbols))
 }
 
 /// value of the placeholder operand (src/compiler.rs JUMP_PLACEHOLDER); every placeholder is overwritten, so the
@@ -137,7 +137,7 @@ pub open spec fn block_value_post(pre: Compiler, post: Compiler, stmts: Seq<Stmt
     let k = pre.log@.len() as int;
     let m = stmts.len() as int;
     &&& gen_post(pre, post, false)
-    &&& sym_depth(post.symbols) == sym_depth(pre.symbols) && sym_contexts(post.symbols) == sym_contexts(pre.symbols) && sym_outer(post.symbols) == sym_outer(pre.symbols)
+    &&& sym_depth(post.symbols) == sym_depth(pre.symbols) && sym_contexts(post.symbols) == sym_contexts(pre.symbols) && sym_outer(post.symbols) == sym_outer(pre.symbols) && sym_outer_sizes(post.symbols) == sym_outer_sizes(pre.symbols)
     &&& (m == 0 ==> post.instructions@ == pre.instructions@.push(opcode_byte(OpCode::Null)) && post.log@ == pre.log@ && post.last_instruction == Some(OpCode::Null))
     &&& (m > 0 ==> {
             &&& post.log@.len() == k + m
